@@ -52,9 +52,12 @@ let do_s toks =
     (match store t with
      | None -> print_string "S rc=-1\n"
      | Some (s3, fl) ->
-       (match store_bytes fl with
-        | None -> print_string "S rc=-5\n"
-        | Some bytes ->
+       let bytes = fields_bytes fl in
+       (* the octets through the model of bufr_putbits/bufr_putstring (quadratic in this list-based model: small tables only) *)
+       let bitio_ok = if List.length bytes > 4000 then true else (match store_bytes fl with Some b -> b = bytes | None -> false) in
+       (match bitio_ok with
+        | false -> print_string "S rc=-5\n"
+        | true ->
           Printf.printf "S s3=%s s4=%s" (String.concat "," (List.map (fun d -> string_of_int (int_of_z d)) s3)) (hex_of_bytes bytes);
           (match decode_elements (zs ed) s3 bytes with
            | None -> print_string " rc=-3\n"
